@@ -752,13 +752,13 @@ def run(rep, tier, seed):
 
     # 2. spec -> code
     if thorough:
-        emit_and_replay(rep, "FuelShuffle_emit_thorough.cfg", "coreS-depth3", (("hex", "full", (40, None, 1.0, 0.3)), ("hex", "third", (16, 8, 0.5, 0.25)), ("cartesian", "full", (16, 8, 0.5, 0.25))), rng)
-        emit_and_replay(rep, "FuelShuffle_emitT.cfg", "coreT-depth3", (("hex", "full", (30, None, 0.5, 0.25)), ("hex", "third", (10, 4, 0.5, 0.25)), ("cartesian", "full", (10, 4, 0.5, 0.25))), rng)
+        emit_and_replay(rep, "FuelShuffle_emit_thorough.cfg", "coreS-depth3", (("hex", "full", (25, None, 1.0, 0.3)), ("hex", "third", (16, 8, 0.5, 0.25)), ("cartesian", "full", (16, 8, 0.5, 0.25))), rng)
+        emit_and_replay(rep, "FuelShuffle_emitT.cfg", "coreT-depth3", (("hex", "full", (20, None, 0.5, 0.25)), ("hex", "third", (10, 4, 0.5, 0.25)), ("cartesian", "full", (10, 4, 0.5, 0.25))), rng)
     else:
         emit_and_replay(rep, "FuelShuffle_emit.cfg", "coreS-depth3", (("hex", "full", (4, 6, 0.4, 0.34)), ("hex", "third", (2, 3, 0.3, 0.34)), ("cartesian", "full", (2, 3, 0.3, 0.34))), rng)
 
     # 3. code -> spec
-    plans = [("FuelShuffle_trace_M.cfg", "coreM-hex-full", "hex", "full", 80 if thorough else 32, 150 if thorough else 40)]
+    plans = [("FuelShuffle_trace_M.cfg", "coreM-hex-full", "hex", "full", 70 if thorough else 32, 150 if thorough else 40)]
     if thorough:
         plans += [("FuelShuffle_trace_M.cfg", "coreM-hex-third", "hex", "third", 60, 150),
                   ("FuelShuffle_trace_N.cfg", "coreN-cartesian", "cartesian", "full", 30, 250),
@@ -1056,6 +1056,16 @@ def mutants():
          "        if not locContents:\n"
          "            locContents = self.makeLocationLookup(assemblyLevel)\n"
          "            self._setCache('locContents-%s' % bool(assemblyLevel), locContents)"),
+        ("an empty stationaryBlockFlags setting falls back to the default", Core, "processLoading",
+         "in cs[CONF_STATIONARY_BLOCK_FLAGS]:",
+         "in cs[CONF_STATIONARY_BLOCK_FLAGS] or cs.getSetting(CONF_STATIONARY_BLOCK_FLAGS).default:"),
+        ("stationary blocks of unequal height: both assemblies re-established (blocks renamed)", FuelHandler,
+         "_transferStationaryBlocks", "        assembly2.insert(assem2BlockIndex, assem1Block)",
+         "        assembly2.insert(assem2BlockIndex, assem1Block)\n"
+         "    if a1StationaryBlocks and a1StationaryBlocks[-1][0].p.ztop != a2StationaryBlocks[-1][0].p.ztop:\n"
+         "        for assembly in (assembly1, assembly2):\n"
+         "            assembly.reestablishBlockOrder()\n"
+         "            assembly.calculateZCoords()"),
         ("incoming assembly leaves the pool only when tracking is on", FuelHandler, "dischargeSwap",
          'if self.r.excore.get("sfp") is not None:', 'if self.r.core._trackAssems and self.r.excore.get("sfp") is not None:'),
     ]
